@@ -90,6 +90,10 @@ K_NUMBER = [
       ["sonic_number::parse_number"], package="sonic-number", kind="bounded(literal length <= 8)"),
 ]
 
+K_PASTEND = [
+    K("dom_entry_past_end_is_error", "Value::parse_with_padding against the contract of the in-place parser: a parse that only stopped inside the padding (Ok with the reader 1 or 2 bytes past the end: unterminated string) is turned into an error, so the returned offset never exceeds the input (found F24); all inputs of 2 bytes x both configuration flags",
+      ["value::node::Value::parse_with_padding"], kind="bounded(input length = 2)"),
+]
 PROPS = {}
 
 PROPS["C08"] = {
@@ -107,7 +111,7 @@ PROPS["C08"] = {
 PROPS["C02"] = {
     "level": "proof",
     "verus": [{"unit": "recognisers", "rlimit": 200}, {"unit": "decoder", "rlimit": 300}, {"unit": "decoder_inplace", "rlimit": 300}, {"unit": "serde_access", "rlimit": 200}, {"unit": "typed_de", "rlimit": 300}, {"unit": "strings", "rlimit": 200}],
-    "kani": K_STRTAB + K_WS,
+    "kani": K_STRTAB + K_WS + K_PASTEND,
     "trusted_base": [T1, T2, T3, T4, T6, T8, VSTD, KANI, PERR,
                      "UTF-8 prevalidation (simdutf8) in Read::new_in is T4: the reader's marker `next_invalid` (offset of the first invalid byte the validation found) enters as an uninterpreted reader state; proved on top of it: Parser::check_invalid_utf8, parse_str (an accepted literal in the default configuration leaves no invalid UTF-8 in the consumed part) and Deserializer::deserialize (a document is handed out only if the consumed part is clean, whatever the target type skipped: F22)",
                      "fully-decoding half: parse_value2/parse_array2/parse_object2 are proved; their leaves Parser::parse_number (wrapper around the verified sonic_number::parse_number) and parse_str (both proved for the real functions in units typed_num / strings; what stays assumed is the decoded text of the copying half, parse_string_escaped) enter through contracts restated in the decoder units; surrogate pairing / float finiteness make the decoder reject MORE than the grammar, which the statement permits",
@@ -204,7 +208,7 @@ K_STRBITS = [
 PROPS["C01"] = {
     "level": "proof",
     "verus": [{"unit": "recognisers", "rlimit": 200}, {"unit": "errors", "rlimit": 200}, {"unit": "number", "rlimit": 400}, {"unit": "walkers", "rlimit": 200}, {"unit": "iterators", "rlimit": 200}, {"unit": "strings", "rlimit": 200}, {"unit": "decoder", "rlimit": 300}, {"unit": "decoder_inplace", "rlimit": 300}, {"unit": "serde_access", "rlimit": 200}, {"unit": "unchecked", "rlimit": 400}, {"unit": "getmany", "rlimit": 300}, {"unit": "owned_load", "rlimit": 400}, {"unit": "walkers_unchecked", "rlimit": 400}, {"unit": "container", "rlimit": 400}, {"unit": "formatter", "rlimit": 200}, {"unit": "serializer", "rlimit": 300}, {"unit": "lazy_get", "rlimit": 300}, {"unit": "dom_visitor", "rlimit": 200}, {"unit": "typed_de", "rlimit": 300}, {"unit": "typed_num", "rlimit": 200}],
-    "kani": K_UNICODE + K_BLOCK[3:] + K_QUOTE[1:] + K_META[:1] + K_META[2:] + K_READER + K_OWNED[:2] + K_OWNED[-1:],
+    "kani": K_UNICODE + K_BLOCK[3:] + K_QUOTE[1:] + K_META[:1] + K_META[2:] + K_READER + K_OWNED[:2] + K_OWNED[-1:] + K_PASTEND,
     "syntactic": [{"name": "recursion guard stays alive while the nested value is visited", "fn": synt.depth_guard_held},
                   {"name": "input-driven parser recursion has a depth budget", "fn": synt.parser_recursion_bounded}],
     "trusted_base": [T1, T2, T3, T4, T6, T8, VSTD, KANI,
@@ -247,7 +251,7 @@ PROPS["C18"] = {
 PROPS["C03"] = {
     "level": "proof",
     "verus": [{"unit": "decoder", "rlimit": 300}, {"unit": "decoder_inplace", "rlimit": 300}, {"unit": "dom_visitor", "rlimit": 200}, {"unit": "typed_de", "rlimit": 300}],
-    "kani": K_META,
+    "kani": K_META + K_PASTEND,
     "trusted_base": [T1, T2, T6, T8, VSTD, KANI, T4, PERR,
                      "DocumentVisitor: its callbacks (impl JsonVisitor: which node kind / payload / sibling index each event pushes) are proved in unit dom_visitor at dispatch level, with the node stack opaque; the stack machinery itself (push_node, visit_container_start / visit_container_end: flattening, arena copy with copy_nonoverlapping into bumpalo, back-pointer header, visit_root) and the public read API walk are NOT under contract (CBMC needs > 50 GB on a 10-event script)",
                      "string / number payloads are uninterpreted here (decoded, num_event) and delegate to C09 / C07; Parser::parse_number and parse_str enter through assumed contracts",
